@@ -115,6 +115,8 @@ def in_place_edits(model):
 def relint_in_place(model, pristine, case, acc):
     """lint, edit the same model object in place, lint again: the second result must be that of a fresh copy."""
     from bare_script.model import lint_script  # pylint: disable=import-outside-toplevel,import-error
+    if model != pristine:
+        return      # lint_script modified the model: already reported by the purity check, nothing more to learn here
     for desc, do, undo in in_place_edits(model):
         do()
         try:
@@ -129,7 +131,9 @@ def relint_in_place(model, pristine, case, acc):
         if got != want:
             acc.violation(dict(case, in_place_edit=desc), want, got, 'lint of a model edited in place differs from lint of an equal fresh model (stale state between calls)')
     if model != pristine:
-        raise RuntimeError('harness: in-place edit not undone')
+        acc.violation(case, 'model unchanged after lint of an edited model (edit undone)', 'model differs', 'lint_script modified the model it linted after an in-place edit')
+        model.clear()
+        model.update(copy.deepcopy(pristine))
 
 
 def purity_and_exactness(model, case, acc):
